@@ -101,6 +101,12 @@ CLAIMS = {
             "input, OSError faults at chosen reads, with/without callback); get_cursor_vertical_diff for every small "
             "(top_usable_row, last row, reported rows) with a nested call injected during a query; TLC judges each recorded call.",
             TRUST + "Preceding input that itself contains a complete report is excluded (inherent ambiguity).", "5/C18"),
+    "C13": ("TLA+ pool-program spec (Pool.tla/PoolOps.tla; AppendOnly action property): TLC generates straight-line programs "
+            "(BFS depth 2 + simulation depth 12) that are replayed on real FmtStr objects; PoolTrace.tla validates every step",
+            "After every step of every TLC-generated program the run lists of all live values are recorded without touching "
+            "memos and must be unchanged; Observe steps compare memoised str/len/s/width/repr with views rebuilt from fresh "
+            "runs; in-place edit attempts must raise; modelled operations must give the model's cells on shared, cache-warm operands.",
+            TRUST, "5/C13"),
 }
 
 NOT_BUILT = "check not built yet at this commit (planned with the same TLA+ technique, see DESIGN.md section 5)"
